@@ -5,7 +5,7 @@ Require Import Base.
 Inductive op :=
 | OWriteHeader (c : Z)
 | OWrite (bs : str) (acc : N)   (* acc: how many bytes the underlying writer accepts *)
-| OFlush
+| OFlush (f : bool)               (* f: the underlying writer is an http.Flusher *)
 | OBefore (id : nat) (p : bool)   (* p: this before function panics when it runs *)
 | OStatus
 | OSize
@@ -56,8 +56,9 @@ Definition step (head : bool) (s : st) (o : op) : st * list ev :=
       if pan || head then (s1, e1)
       else let n := N.min acc (slen bs) in
            (mk (status s1) (size s1 + n) (hooks s1) (once s1), e1 ++ [UWrite bs n])
-  | OFlush =>
-      let '(s1, e1, pan) := ensure_header s in if pan then (s1, e1) else (s1, e1 ++ [UFlush])
+  | OFlush f =>
+      let '(s1, e1, pan) := ensure_header s in
+      if pan then (s1, e1) else (s1, e1 ++ (if f then [UFlush] else []))
   | OBefore id p => (mk (status s) (size s) (hooks s ++ [(id, p)]) (once s), [])
   | OStatus => (s, [AStatus (status s)])
   | OSize => (s, [ASize (size s)])
@@ -87,7 +88,7 @@ Record judge := mkj {
 Definition jinit : judge := mkj None 0 [] false.
 
 Definition is_trigger (o : op) : bool :=
-  match o with OWriteHeader _ | OWrite _ _ | OFlush => true | _ => false end.
+  match o with OWriteHeader _ | OWrite _ _ | OFlush _ => true | _ => false end.
 
 Definition trigger_code (o : op) : Z :=
   match o with OWriteHeader c => c | _ => 200 end.
@@ -118,7 +119,7 @@ Definition expected (head : bool) (j : judge) (o : op) : list ev :=
     match o with
     | OWriteHeader _ => first
     | OWrite bs acc => first ++ (if head then [] else [UWrite bs (N.min acc (slen bs))])
-    | OFlush => first ++ [UFlush]
+    | OFlush f => first ++ (if f then [UFlush] else [])
     | OBefore _ _ => []
     | OStatus => [AStatus (match sent j with Some c => c | None => 0 end)]
     | OSize => [ASize (fwd j)]
@@ -140,7 +141,7 @@ Definition jstep (j : judge) (o : op) (es : list ev) : judge :=
   match o with
   | OBefore id p => mkj (sent j1) (fwd j1) (regs j1 ++ [(id, p)]) (fired j1)
   | OWriteHeader _ => mkj (sent j1) (fwd j1) (regs j1) true
-  | OWrite _ _ | OFlush => mkj (sent j1) (fwd j1) (regs j1) (fired j1 || match sent j with None => true | Some _ => false end)
+  | OWrite _ _ | OFlush _ => mkj (sent j1) (fwd j1) (regs j1) (fired j1 || match sent j with None => true | Some _ => false end)
   | _ => j1
   end.
 
